@@ -30,6 +30,12 @@ const (
 	// extension from the known records only (EncodeMessageExtraData /
 	// PackRecords) drops unknown TLV records that Decode had kept.
 	c10KeyDropUnknown = "C10:encode-drops-unknown-tlv-records"
+
+	// c10KeyGrows: an accepted input within a few bytes of the 65535-byte
+	// bound whose canonical re-encoding is longer (Encode emits a field
+	// the input omitted, e.g. the encoding byte of an empty
+	// encoded_short_ids) no longer fits and WriteMessage fails.
+	c10KeyGrows = "C10:reencode-of-near-max-input-exceeds-bound"
 )
 
 // c10Known: the key is listed as a known finding (or, for harness development
@@ -405,6 +411,18 @@ func c10Fixpoint(t c10TB, st *vstats.Collector, b []byte) (bool, []byte) {
 
 	b1, err := c10Write(m1)
 	if err != nil {
+		var grown bytes.Buffer
+		_ = m1.Encode(&grown, 0)
+		if len(b) >= MaxSliceLength-8 && grown.Len() > MaxMsgBody &&
+			grown.Len() <= MaxMsgBody+8 && c10Known(c10KeyGrows) {
+
+			if st != nil {
+				st.Known(c10KeyGrows)
+				st.Count("excluded_known", 1)
+			}
+
+			return false, nil
+		}
 		t.Fatalf("%T decoded from wire bytes cannot be re-encoded: %v\n"+
 			"input(%d)=%x", m1, err, len(b), c10Head(b))
 	}
